@@ -1139,6 +1139,14 @@ def gen_wrapper(draw, tier="quick"):
     )
     case["params"] = draw(_tparams(kind))
     case["z"] = draw(st.lists(st.floats(-4, 4), min_size=npts, max_size=npts))
+    if kind == "discrete" and case["params"]["mode"] == "equal":
+        # boundary values: standardised field values on either side of every documented class boundary
+        # (quantiles of N(mean, sill)), so that a displaced boundary changes a class (seeded change F_C19)
+        n = len(case["params"]["values"])
+        delta = draw(st.sampled_from([1e-6, 1e-3, 0.03]))
+        edge = [float(ndtri(k / n)) + sgn * delta for k in range(1, n) for sgn in (-1.0, 1.0)]
+        for i, v in enumerate(edge[:npts]):
+            case["z"][i] = v
     case["src"] = draw(st.sampled_from(["field", "field", "raw"]))
     case["store"] = draw(st.sampled_from([True, True, False, "out", "field", "raw2"]))
     case["entry0"] = draw(st.integers(0, 2))
